@@ -356,7 +356,7 @@ fn cmd_run(args: &[String]) {
     let mut runs = 0u64;
     let mut steps = 0u64;
     let mut counters: BTreeMap<String, u64> = BTreeMap::new();
-    let mut reach: BTreeSet<String> = BTreeSet::new();
+    let mut reach: BTreeMap<String, u64> = BTreeMap::new();
     let mut fps: Vec<(u64, String)> = Vec::new();
     let mut violations = Vec::new();
     let mut sigs_seen: BTreeSet<String> = BTreeSet::new();
@@ -383,8 +383,11 @@ fn cmd_run(args: &[String]) {
             *counters.entry(k.clone()).or_insert(0) += v;
         }
         for k in &r.reach {
-            if !reach.contains(k) {
-                reach.insert(k.clone());
+            // number of runs in which the tuple occurred
+            if let Some(c) = reach.get_mut(k) {
+                *c += 1;
+            } else {
+                reach.insert(k.clone(), 1);
             }
         }
         if want_fps && i - start < fps_limit {
